@@ -14,6 +14,13 @@ mod scalar {
     use ::glam_scalar as glam;
     include!("suite.rs");
 }
+/// scalar-math with `glam-assert`: the second pass for the scalar copies (a quarter of the volume)
+#[cfg(not(feature = "core"))]
+mod scalar_asserting {
+    pub const VARIANT: &str = "scalar+glam-assert";
+    use ::glam_scalar_assert as glam;
+    include!("suite.rs");
+}
 mod libmv {
     pub const VARIANT: &str = "libm";
     use ::glam_libm as glam;
@@ -42,6 +49,7 @@ fn main() {
         subs.extend(simd::subs(&args));
         subs.extend(scalar::subs(&args));
         subs.extend(asserting::subs(&args));
+        subs.extend(scalar_asserting::subs(&args).into_iter().map(|s| s.with_div(4)));
         // the libm build runs in every tier (a change confined to the libm math shims is invisible otherwise)
         {
             subs.extend(libmv::subs(&args));
